@@ -5,7 +5,7 @@
    observed view, only for mutations of matched dependencies and at most once per mutation. *)
 From Coq Require Import ZArith List Bool Arith Lia.
 From TV Require Import C12.Model C12.Law C12.Proofs C12.Compose.
-From TV Require C09.Model C09.Proofs C09.DynCount C09.DynSlot C09.Dyn C09.Law.
+From TV Require C09.Model C09.Proofs C09.DynCount C09.DynSlot C09.DynAdd C09.Dyn C09.Law.
 Import ListNotations.
 Open Scope Z_scope.
 
@@ -115,6 +115,37 @@ Theorem graph_mutations_are_faithful :
 Proof. exact Compose.graph_mutations_are_faithful. Qed.
 Print Assumptions graph_mutations_are_faithful.
 
+(* scalar changes after ANY admissible history of graph mutations and add_trait (C09's dynamic invariant): faithful with
+   respect to the registrations matched on the heap as it is now *)
+Theorem changes_are_faithful_on_the_current_heap :
+  forall (W : Type) (view : W -> list Z)
+         (d : C09.Dyn.dstate) (R : list C09.DynCount.reg) o f s' ob (k : C09.Model.key),
+    C09.DynCount.dstate_inv d R -> C09.Proofs.wfH (C09.Model.st_hooks (C09.Dyn.d_st d)) ->
+    C09.Model.step (C09.Dyn.d_heap d) (C09.Dyn.d_st d) (C09.Model.Change o f) = (s', ob) ->
+    forall (cs : state W) (w' : W),
+      (touched_by (C09.Dyn.d_heap d) R k (o, f) = false -> view (world cs) = view w') ->
+      faithful W view cs (Mut w' (touched_by (C09.Dyn.d_heap d) R k (o, f)) (C09.Proofs.ncalls k (C09.Model.o_calls ob))).
+Proof. exact Compose.changes_are_faithful_on_the_current_heap. Qed.
+Print Assumptions changes_are_faithful_on_the_current_heap.
+
+(* obj.add_trait of a dependency the property names as OPTIONAL: C09 proves that the hooks are completed
+   (C09.add_trait_completes_the_registrations), so later changes of the new trait are faithful by the theorem above; the
+   add_trait step itself calls the property's handler iff one of its registrations matches the object's trait_added --
+   a Property's own graph never does, so the step is faithful only for getters whose view does not depend on whether
+   the optional dependency is defined (candidate finding F24, design.d/C12.md) *)
+Theorem add_trait_is_faithful_iff_matched :
+  forall (W : Type) (view : W -> list Z)
+         (h hrun : C09.Model.heap) (R : list C09.DynCount.reg) (H : C09.Model.hooks) (s : C09.Model.state)
+         x f H' calls (k : C09.Model.key),
+    C09.DynCount.dinv h H R -> C09.Proofs.wfH H ->
+    C09.Model.dead_handlers s = [] -> C09.Model.dead_objs s = [] ->
+    C09.Dyn.run_ta_notifiers hrun s x f (H (x, C09.Model.F_TA)) H [] = (H', calls, None) ->
+    forall (cs : state W) (w' : W),
+      (touched_by h R k (x, C09.Model.F_TA) = false -> view (world cs) = view w') ->
+      faithful W view cs (Mut w' (touched_by h R k (x, C09.Model.F_TA)) (C09.Proofs.ncalls k calls)).
+Proof. exact Compose.add_trait_is_faithful_iff_matched. Qed.
+Print Assumptions add_trait_is_faithful_iff_matched.
+
 (* REFUTED without the interface hypothesis (listed finding F23): when the observe machinery delivers nothing
    for a relevant change — which is what happens to a Property(observe=...) added with add_trait /
    add_class_trait, whose observers are never installed — a cached property is stale and a listener hears
@@ -190,6 +221,37 @@ Proof.
     rewrite Ok in Rs. exact Rs.
   - vm_compute. reflexivity.
   - vm_compute. split; reflexivity.
+Qed.
+
+(* non-vacuity of add_trait_is_faithful_iff_matched: object 0 observes the optional, not yet defined trait 9; the
+   invariant holds, trait_added of object 0 is NOT touched by the registration; add_trait(9) runs the trait_added
+   maintainer, which hooks the handler on the new trait -- and does not call it *)
+Example add_trait_nontrivial :
+  let g := C09.Model.G (C09.Model.NNamed 9%nat true true) [] in
+  let k := (7, 0, 0)%nat in
+  let s0 := C09.Model.mkState (fun _ => []) [] [] in
+  let s1 := fst (C09.Model.step cx_heap s0 (C09.Model.Register 0%nat 7%nat 0%nat [g])) in
+  C09.DynCount.dinv cx_heap (C09.Model.st_hooks s1) [(k, g, 0%nat)]
+  /\ touched_by cx_heap [(k, g, 0%nat)] k (0%nat, C09.Model.F_TA) = false
+  /\ C09.Proofs.cntH (C09.Model.st_hooks s1) (0, 9)%nat (C09.Proofs.CK (C09.Model.AUser k)) = 0%nat
+  /\ (let '(H', calls, e) := C09.Dyn.run_ta_notifiers (C09.Dyn.add_trait_h cx_heap 0%nat 9%nat []) s1 0%nat 9%nat
+                               (C09.Model.st_hooks s1 (0%nat, C09.Model.F_TA)) (C09.Model.st_hooks s1) [] in
+      e = None /\ C09.Proofs.ncalls k calls = 0%nat
+      /\ C09.Proofs.cntH H' (0, 9)%nat (C09.Proofs.CK (C09.Model.AUser k)) = 1%nat).
+Proof.
+  intros g k s0 s1. split; [|split; [|split]].
+  - pose proof (C09.DynCount.register_step cx_heap (fun _ => []) [] 0%nat 7%nat 0%nat g s0 s1
+                  (snd (C09.Model.step cx_heap s0 (C09.Model.Register 0%nat 7%nat 0%nat [g])))) as Rs.
+    assert (C09.DynCount.dinv cx_heap (fun _ => []) []) as I0.
+    { split; [intros o; reflexivity|split; [intros; reflexivity|intros ? ? ? []]]. }
+    specialize (Rs I0 eq_refl). unfold s1 in *.
+    destruct (C09.Model.step cx_heap s0 (C09.Model.Register 0%nat 7%nat 0%nat [g])) as [s' ob] eqn:St.
+    specialize (Rs eq_refl). cbn [fst snd] in *.
+    assert (C09.Model.o_out ob = None) as Ok by (vm_compute in St; inversion St; reflexivity).
+    rewrite Ok in Rs. exact Rs.
+  - vm_compute. reflexivity.
+  - vm_compute. reflexivity.
+  - vm_compute. repeat split; reflexivity.
 Qed.
 
 Example nested_nontrivial :
